@@ -121,16 +121,16 @@ func GenWorld(r *hk.Rand, b *B, big bool) {
 			}
 			switch pick {
 			case 0, 1:
-				b.Claim(pn, kind, "tag", tagVals[r.Intn(len(tagVals))], nextDate(pn))
+				b.ClaimBy(r.Chance(12), pn, kind, "tag", tagVals[r.Intn(len(tagVals))], nextDate(pn))
 			case 2:
-				b.Claim(pn, "set", "camliNodeType", nodeTypes[r.Intn(len(nodeTypes)-boolInt(!r.Chance(15)))], nextDate(pn))
+				b.ClaimBy(r.Chance(12), pn, "set", "camliNodeType", nodeTypes[r.Intn(len(nodeTypes)-boolInt(!r.Chance(15)))], nextDate(pn))
 			case 3, 4:
 				attr := "camliMember"
 				if r.Chance(25) {
 					attr = "camliPath:" + tagVals[r.Intn(2)]
 					kind = "set"
 				}
-				b.Claim(pn, kind, attr, targets(), nextDate(pn))
+				b.ClaimBy(r.Chance(12), pn, kind, attr, targets(), nextDate(pn))
 			case 5:
 				if len(files) > 0 {
 					b.Claim(pn, "set", "camliContent", files[r.Intn(len(files))], nextDate(pn))
@@ -156,6 +156,14 @@ func GenWorld(r *hk.Rand, b *B, big bool) {
 				b.Claim(pn, "del", a, v, nextDate(pn))
 			}
 		}
+	}
+	for _, pn := range pns {
+		if r.Chance(35) {
+			Churn(r, b, pn, func(string) {})
+		}
+	}
+	if b.LastDate > date {
+		date = b.LastDate
 	}
 	for _, pn := range pns {
 		if r.Chance(10) {
@@ -310,6 +318,9 @@ func (g *cgen) timeC(samples []int64) *TimeC {
 		t = samples[g.r.Intn(len(samples))]
 	}
 	t += int64(g.r.Intn(3)) - 1
+	if t < 10 {
+		t = 10
+	}
 	switch g.r.Intn(3) {
 	case 0:
 		return &TimeC{Before: t}
@@ -340,7 +351,9 @@ func (g *cgen) claimDates() []int64 {
 		d = append(d, c.Date)
 	}
 	for _, t := range g.w.CTime {
-		d = append(d, t)
+		if t != 0 {
+			d = append(d, t)
+		}
 	}
 	return d
 }
@@ -480,7 +493,29 @@ func (g *cgen) perm(depth int) *PermC {
 	if g.r.Chance(8) {
 		p.Time = g.timeC(g.claimDates())
 	}
+	if g.r.Chance(25) {
+		p.At = g.at()
+	}
 	return p
+}
+
+// at: a time before, between or after the claims of the world (never 0, which means now)
+func (g *cgen) at() int64 {
+	var ds []int64
+	for _, c := range g.w.Claims {
+		ds = append(ds, c.Date)
+	}
+	if len(ds) == 0 {
+		return 1400000000
+	}
+	t := ds[g.r.Intn(len(ds))] + int64(g.r.Intn(3)) - 1
+	if g.r.Chance(10) {
+		t = 1399990000 // before everything
+	}
+	if g.r.Chance(10) {
+		t = 1500000000 // after everything
+	}
+	return t
 }
 
 func (g *cgen) fileNames() (names, mimes []string, sizes, times []int64, wholes []string) {
@@ -797,6 +832,12 @@ func GenFocusCons(r *hk.Rand, w *MWorld, focus string) *Cons {
 			}
 			p.Rel = rel
 		}
+		if r.Chance(30) {
+			p.At = g.at()
+		}
+		if r.Chance(15) && p.InSet != nil && p.InSet.Pn != nil {
+			p.InSet.Pn.At = g.at()
+		}
 		c := &Cons{Pn: p}
 		if r.Chance(30) {
 			c.Camli = "permanode"
@@ -915,10 +956,64 @@ func GenArrivals(r *hk.Rand, b *B, a *Arrivals, hit func(string)) {
 				b.Claim(pn, "add", "tag", tagVals[r.Intn(len(tagVals))], b.LastDate+1)
 			}
 			hit("arrival:permanode")
-		case 8, 9:
+		case 8:
 			b.Claim(pns[r.Intn(len(pns))], "add", "camliMember", pns[r.Intn(len(pns))], b.LastDate+1)
 			hit("arrival:member-claim")
+		case 9:
+			Churn(r, b, pns[r.Intn(len(pns))], func(k string) { hit("arrival:" + k) })
 		}
 	}
 	b.SyncCTimes()
+}
+
+// Churn lets a succession of set / del / add claims on the attributes the planner and the matcher
+// look at (camliNodeType above all) arrive for pn, about half of them DATED BEFORE claims that have
+// already arrived: the order of arrival is then not the order in which the claims take effect
+// (an old del-attribute arriving after the set-attribute that is in effect now, a re-set dated
+// before the del that removed the type, …). Values are never blobrefs.
+func Churn(r *hk.Rand, b *B, pn string, hit func(string)) {
+	used := map[int64]bool{}
+	for _, c := range b.MW.Claims {
+		if c.PN == pn {
+			used[c.Date] = true
+		}
+	}
+	for i, n := 0, 2+r.Intn(3); i < n; i++ {
+		date := b.LastDate + 1
+		late := r.Chance(50) && b.LastDate > 1399999100
+		if late {
+			date = 0
+			for try := 0; try < 8 && date == 0; try++ {
+				if d := 1399999000 + int64(r.Intn(int(b.LastDate-1399999000))); !used[d] {
+					date = d
+				}
+			}
+			if date == 0 {
+				date, late = b.LastDate+1, false
+			}
+		}
+		used[date] = true
+		attr, vals := "camliNodeType", nodeTypes[:2]
+		switch r.Intn(10) {
+		case 0, 1:
+			attr, vals = "tag", tagVals
+		case 2:
+			attr, vals = "camliDefVis", []string{"hide", "show"}
+		}
+		kind := r.Pick([]string{"set", "set", "del", "del", "add"})
+		val := vals[r.Intn(len(vals))]
+		if kind == "del" && r.Chance(40) {
+			val = ""
+		}
+		other := r.Chance(30)
+		b.ClaimBy(other, pn, kind, attr, val, date)
+		if other {
+			hit("claim-by-second-signer")
+		}
+		if late {
+			hit("claim-dated-before-earlier-arrivals")
+		} else {
+			hit("churn-claim-in-date-order")
+		}
+	}
 }
